@@ -14,19 +14,29 @@ RULE = (
     "dialect's keyword list in three casings and near-misses, Decimal rules with 0-6 fraction digits, length declarations on "
     "text-like fields, empty flags, Integer fields with rule / with length only / with neither. The CREATE TABLE text is "
     "parsed back into columns and compared with M-ddl: one column per field in order; quoted iff the name is a keyword of "
-    "the dialect (plus an anchor list that must stay quoted everywhere); NOT NULL iff not allowed to be empty; Integer column "
+    "the dialect (plus an anchor list that must stay quoted everywhere and reserved words of single dialects taken from the vendors' lists); NOT NULL iff not allowed to be empty; Integer column "
     "type's interval contains both limits; Decimal (total, fraction) digits; text length = upper length limit. A case is "
     "(dialect, field declaration); distinct by digest; non-trivial when a limit is within 1 of a type boundary, the name is "
     "a keyword, or a Decimal rule / length is present."
 )
 ASSUMPTIONS = [
-    "ANSI 'int' is judged as 32 bit only when both limits fit 32 bit (the standard leaves its precision open); open-ended Integer ranges and the syntactic validity of e.g. DB2 'integer(32768)' are unjudged",
+    "ANSI 'int' is judged as 32 bit only when both limits fit 32 bit (the standard leaves its precision open); open-ended Integer ranges are unjudged",
+    "a column type of the dialect: integer types without length, decimal precision at most 38 (PL/SQL, Transact-SQL) / 31 (DB2)",
     "PL/SQL 'int' is NUMBER(38); decimal(p)/number(p, 0) hold +-(10^p - 1)",
 ]
 
 # words that are in all four keyword tables of the pinned tree (fixed when the check was built): they must stay quoted
 # even if a table is edited; words missing from a table today (e.g. "order" for PL/SQL) are deliberately not listed
 ANCHOR_KEYWORDS = ["select", "table", "where", "group", "insert", "update", "delete", "create", "union", "values"]
+# reserved words of single dialects, taken from the vendors' lists (not from cutplace's tables)
+DIALECT_ANCHOR_KEYWORDS = {
+    "PL/SQL": ["order", "overlaps"],
+    "DB2": ["first", "last", "next", "old", "period", "prior", "organization", "currval", "sysdate", "systimestamp", "order"],
+    "Transact-SQL": ["order"],
+    "ANSI": ["order"],
+}
+# the largest precision a decimal column type can have
+MAX_PRECISION = {"PL/SQL": 38, "Transact-SQL": 38, "DB2": 31}
 INTERVALS = {
     "tinyint": (0, 255),
     "smallint": (-(2**15), 2**15 - 1),
@@ -145,7 +155,7 @@ def check_cid(ctx, fields, dialect_names=None):
             nontrivial = is_kw or f["type"] == "Decimal" or bool(f["length"]) or f.get("near_boundary", False)
             ctx.case(case, nontrivial)
             ctx.count("columns.judged")
-            must_quote = is_kw or f["name"].lower() in ANCHOR_KEYWORDS
+            must_quote = is_kw or f["name"].lower() in ANCHOR_KEYWORDS or f["name"].lower() in DIALECT_ANCHOR_KEYWORDS[dialect_name]
             if col["quoted"] != must_quote:
                 ctx.violation("C19:keyword-quoting", case, "column name %s although it %s a keyword of the dialect" % ("quoted" if col["quoted"] else "not quoted", "is" if must_quote else "is not"),
                               expected=must_quote, observed=text)
@@ -162,6 +172,19 @@ def check_cid(ctx, fields, dialect_names=None):
                 interval = integer_interval(dialect_name, col)
                 if dialect_name == "ANSI" and col["type"] == "int" and (lo < -(2**31) or hi > 2**31 - 1):
                     ctx.unjudged("ANSI int for limits beyond 32 bit")
+                    continue
+                if col["type"] in INTERVALS and col["a"] is not None:
+                    ctx.violation("C19:integer-type-with-length:%s:%s" % (dialect_name, col["type"]), case,
+                                  "%s(%d) is no column type of the dialect: its integer types take no length" % (col["type"], col["a"]), expected=col["type"], observed=text)
+                    continue
+                if col["type"] in ("decimal", "number", "numeric") and dialect_name in MAX_PRECISION and col["a"] is not None and col["a"] > MAX_PRECISION[dialect_name]:
+                    needed = max(len(str(abs(lo))), len(str(abs(hi))))
+                    if needed > MAX_PRECISION[dialect_name]:
+                        ctx.unjudged("Integer limits with more digits than the dialect's decimal type can have")
+                        continue
+                    ctx.violation("C19:integer-type-precision-beyond-dialect:%s" % dialect_name, case,
+                                  "%s(%d, ...) is no column type of the dialect: the precision is limited to %d digits" % (col["type"], col["a"], MAX_PRECISION[dialect_name]),
+                                  expected="%s(%d, 0) or the like" % (col["type"], needed), observed=text)
                     continue
                 if interval is None:
                     ctx.violation("C19:integer-type-unknown", case, "Integer field got a column type whose range is unknown", observed=text)
@@ -229,6 +252,9 @@ def run(ctx):
             elif source < 0.6:
                 kw = rng.choice(all_keywords[rng.choice(sorted(all_keywords))])
                 name = rng.choice([kw + "x", kw + "_", "x" + kw, kw + "1"])
+            elif source < 0.68:
+                kw = rng.choice([w for words in DIALECT_ANCHOR_KEYWORDS.values() for w in words])
+                name = rng.choice([kw, kw.upper(), kw.capitalize()])
             else:
                 name = rng.choice(["customer_id", "amount", "f%d" % k, "Value%d" % k, "x"])
             if not usable_name(name) or name.lower() in used:
